@@ -468,8 +468,13 @@ def race_soak(ctx, cov, violation, notes):
     reports = re.findall(r"WARNING: DATA RACE\n(.*?)\n==================", err, re.S)
     uniq = {}
     for r in reports:
-        frames = [f for f in re.findall(r"^\s+(\S*q191201771/\S+?)\(\)", r, re.M)]
-        key = tuple(sorted(set(f[f.rfind("/") + 1:] for f in frames[:2]))) or ("?",)
+        # innermost lal/naza frame of each of the two conflicting accesses (the first two stacks of the report)
+        frames = []
+        for stack in re.split(r"\n\s*\n", r)[:2]:
+            fs = re.findall(r"^\s+(\S*q191201771/\S+?)\(\)", stack, re.M)
+            if fs:
+                frames.append(fs[0])
+        key = tuple(sorted(set(f[f.rfind("/") + 1:] for f in frames))) or ("?",)
         uniq.setdefault(key, r)
     m = re.search(r"^lalrace: (.*)$", so, re.M)
     cov["race_soak"] = dict(seconds=round(time.time() - t0, 1), exit=rc, data_race_reports=len(reports), distinct=len(uniq),
